@@ -75,6 +75,7 @@ def cases(tier):
         out.append({"kind": "praj_curve", "group": g, "_weight": 3})
         for rm in ([600] if q else [400, 600, 1200]):
             out.append({"kind": "p_ram", "group": g, "R_m": rm, "_weight": 3})
+        out.append({"kind": "p_ram", "group": g, "R_m": 600, "dtype": "int", "_weight": 3})
     nmax = 3 if q else 5
     for n in range(1, nmax + 1):
         for runs in itertools.product((1, 2), repeat=n):
@@ -236,11 +237,16 @@ def _praj_curve(ctx, case):
 
 def _p_ram(ctx, case):
     _setup(ctx, DP)
-    Sa, Sm, ea, E = ctx.real("S_a"), ctx.real("S_m"), ctx.real("eps_a"), ctx.real("E")
+    ints = case.get("dtype") == "int"       # whole-number stresses in integer-typed columns
+    Sa, Sm = (ctx.int("S_a"), ctx.int("S_m")) if ints else (ctx.real("S_a"), ctx.real("S_m"))
+    ea, E = ctx.real("eps_a"), ctx.real("E")
     ctx.assume(sym_and(Sa >= 0, ea >= 0, E > 0))
     ctx.hint(sym_and(Sa <= 8, Sm <= 8, Sm >= -8, ea <= 4, E <= 4))
+    if ints:
+        ctx.hint(sym_and(Sm != 0, Sa > 0, ea > 0))
     dt = object if ctx.sym else np.float64
-    coll = pd.DataFrame({"S_a": np.array([Sa], dtype=dt), "S_m": np.array([Sm], dtype=dt), "epsilon_a": np.array([ea], dtype=dt)})
+    dts = object if ctx.sym else (np.int64 if ints else np.float64)
+    coll = pd.DataFrame({"S_a": np.array([Sa], dtype=dts), "S_m": np.array([Sm], dtype=dts), "epsilon_a": np.array([ea], dtype=dt)})
     ap = pd.Series({"MatGroupFKM": case["group"], "R_m": float(case["R_m"]), "E": E}, dtype=object)
     res = DP.P_RAM(coll, ap).collective
     P = list(res["P_RAM"])[0]
